@@ -130,7 +130,9 @@ type c18Case struct {
 	Writer string `json:"writer,omitempty"`
 	// LongLine: no fault; the document holds a line longer than 64 KiB and Cues cues
 	LongLine bool `json:"long_line,omitempty"`
-	Cues     int  `json:"cues,omitempty"`
+	// TextBytes (with LongLine): how many 'x' the texts of the cues hold when the document is read completely
+	TextBytes int `json:"text_bytes,omitempty"`
+	Cues      int `json:"cues,omitempty"`
 	// Mode: how the fault shows. Writers: 0 short count + error, 1 full count + error, 2 zero count + error, 3 one failing
 	// call only, 4 and 5: 0 and 2 with io.ErrShortWrite as the error.
 	// Readers: 0 error on the call after the last good byte, 1 error together with the last good bytes.
@@ -190,6 +192,15 @@ func checkC18(c c18Case) string {
 		s, err := readFormat(c.Format, bytes.NewReader(c.Doc), c.Opts)
 		if err == nil && len(s.Items) != c.Cues {
 			return fmt.Sprintf("%s document with a %d-byte line: no error, but only %d of %d cues returned (silent truncation)", c.Format, longestLine(c.Doc), len(s.Items), c.Cues)
+		}
+		if err == nil && c.TextBytes > 0 {
+			got := 0
+			for _, it := range s.Items {
+				got += strings.Count(it.String(), "x")
+			}
+			if got < c.TextBytes {
+				return fmt.Sprintf("%s document with a %d-byte line: no error, all %d cues, but their text holds %d of the %d characters of that line (silent truncation)", c.Format, longestLine(c.Doc), len(s.Items), got, c.TextBytes)
+			}
 		}
 		return ""
 	}
@@ -399,7 +410,9 @@ func TestC18(t *testing.T) {
 		if cfgShard != 0 {
 			return
 		}
-		sizes := []int{1 << 16, 1<<16 + 1, 70000, 1 << 17, 1 << 18}
+		// (below what a line scanner buffers the line is simply read; above, the reader fails - or, where there is no
+		// such limit, reads it: never a shorter text and no error)
+		sizes := []int{4097, 8193, 1 << 14, 1<<15 + 1, 65000, 1 << 16, 1<<16 + 1, 70000, 1 << 17, 1 << 18}
 		if thorough() {
 			sizes = append(sizes, 1<<19, 1<<20)
 		}
@@ -411,8 +424,14 @@ func TestC18(t *testing.T) {
 				"ssa":  "[Script Info]\nTitle: t\n\n[Events]\nFormat: Marked, Start, End, Style, Name, MarginL, MarginR, MarginV, Effect, Text\nDialogue: Marked=0,0:00:01.00,0:00:02.00,,,0,0,0,,a\nDialogue: Marked=0,0:00:03.00,0:00:04.00,,,0,0,0,," + long + "\nDialogue: Marked=0,0:00:05.00,0:00:06.00,,,0,0,0,,c\n",
 				"ttml": `<tt xmlns="http://www.w3.org/ns/ttml"><body><div><p begin="00:00:01.000" end="00:00:02.000">a</p><p begin="00:00:03.000" end="00:00:04.000">` + long + `</p><p begin="00:00:05.000" end="00:00:06.000">c</p></div></body></tt>`,
 			}
+			docs["ttml2"] = "<tt xmlns=\"http://www.w3.org/ns/ttml\">\n  <body>\n    <div>\n      <p begin=\"00:00:01.000\" end=\"00:00:02.000\">\n        <span>a</span>\n      </p>\n      <p begin=\"00:00:03.000\" end=\"00:00:04.000\">\n        <span>before</span>\n        <br/>\n        <span>" + long + "</span>\n      </p>\n      <p begin=\"00:00:05.000\" end=\"00:00:06.000\">\n        <span>c</span>\n      </p>\n    </div>\n  </body>\n</tt>\n"
+			{
+				c := c18Case{Format: "ttml", Doc: []byte(docs["ttml2"]), LongLine: true, Cues: 3, TextBytes: n}
+				ev.CaseH(true, mix(strHash("ttml2"), uint64(n)), "long-line", "format-ttml")
+				verdict(t, "C18", "c18", c, checkC18)
+			}
 			for _, format := range []string{"srt", "vtt", "ssa", "ttml"} {
-				c := c18Case{Format: format, Doc: []byte(docs[format]), LongLine: true, Cues: 3}
+				c := c18Case{Format: format, Doc: []byte(docs[format]), LongLine: true, Cues: 3, TextBytes: n}
 				ev.CaseH(true, mix(strHash(format), uint64(n)), "long-line", "format-"+format)
 				verdict(t, "C18", "c18", c, checkC18)
 			}
